@@ -27,7 +27,7 @@ Record ws : Type := mkws {
   w_max : Z;
   w_keys : list (list Z);
   w_rpend : option rcont;
-  w_log : list (bool * Z * list Z)   (* ghost: (fin, opcode, payload) of every frame queued for writing, in order *)
+  w_log : list (bool * Z * list Z * list Z)   (* ghost: (fin, opcode, payload, key) of every frame queued, in order *)
 }.
 
 Definition ws_init (max : Z) (keys : list (list Z)) : ws :=
@@ -63,7 +63,7 @@ Definition take_key (s : ws) : list Z * ws :=
 Definition queue_frame (s : ws) (fin : bool) (op : Z) (payload : list Z) : ws :=
   let '(key, s1) := take_key s in
   mkws (w_state s1) (w_codec s1) (w_dst s1) (w_tr s1) (w_pending s1 ++ [build_frame fin 0 op true key payload]) (w_max s1)
-    (w_keys s1) (w_rpend s1) (w_log s1 ++ [(fin, op, payload)]).
+    (w_keys s1) (w_rpend s1) (w_log s1 ++ [(fin, op, payload, key)]).
 
 Definition close_payload (code : Z) (reason : list Z) : list Z := be_bytes 2 code ++ reason.
 Definition prepare_close (s : ws) (payload : list Z) : ws := queue_frame s true ws_OpcodeClose payload.
